@@ -130,4 +130,6 @@ MUTANTS += [
  {"id": "revert-F-R8", "props": ["C15"], "edits": [("pymtl3/dsl/Component.py", "            elif other in removed_connectables and other in parent._dsl.adjacency.get( x, () ):", "            elif False:")]},
  {"id": "revert-F-R9", "props": ["C15"], "edits": [("pymtl3/dsl/Component.py", "                stale_consts.add( other )\n", "")]},
  {"id": "revert-F-S3", "props": ["C11"], "edits": [("pymtl3/passes/sim/DynamicSchedulePass.py", "        scc_blks = [ unwrap.get( x, x ) for x in scc ]", "        scc_blks = list( scc )"), ("pymtl3/passes/mamba/Mamba2020Pass.py", "      scc_blks = [ unwrap.get( x, x ) for x in scc ]", "      scc_blks = list( scc )")]},
+ {"id": "revert-F-Y5", "props": ["C12"], "edits": [("pymtl3/passes/backends/yosys/translation/structural/YosysStructuralTranslatorL3.py", 'f"{ifc_idx}[{i}]" )', 'f"[{i}]{ifc_idx}" )')]},
+ {"id": "revert-F-Y5b", "props": ["C12"], "edits": [("pymtl3/passes/backends/yosys/translation/structural/YosysStructuralTranslatorL4.py", 'f"{c_idx}[{i}]" )', 'f"[{i}]{c_idx}" )')]},
 ]
